@@ -24,6 +24,18 @@ and for each configuration
   * for Number/Integer: every out-of-bound probe (just below/above by one ulp or 1, exactly at an
     exclusive bound, far outside), all four inclusivity combinations, one-sided bounds.
 
+  * List.item_type / ClassSelector.class_ RE-ASSIGNED after the declaration (on the class-level Parameter
+    object or on the per-instance one), then values of the new type set and serialized: 5 (4) declared
+    types x 11 new types (single classes, unions, unions whose members map to OVERLAPPING JSON types such
+    as (int, float) with integral values) x allow_None x 12 histories (class / constructor / instance /
+    update route, instance sharing the class Parameter, per-instance re-assignment and what the class
+    shows afterwards, schema asked for BEFORE the re-assignment, re-assigned and back, class and instance
+    re-assigned to different types); quick: a 1-in-5 slice chosen by seed.  A schema() that raises
+    anything but Unserializable on such a state is reported as C16/schema/wellformed kind=raised.
+    (Re-assignment to None -- "untyped" -- is not enumerated: on the pinned tree list_schema then calls
+    class__schema(None), a TypeError; whether the stale deprecated alias slot `class_` is the user's or
+    the library's business is debatable.)
+
 Oracle (from the statement): (1) each entry of `param.schema()` and the object schema
 `{'type': 'object', 'properties': param.schema()}` is a well-formed draft-07 JSON Schema that uses
 only JSON-Schema keywords and the seven JSON type names; (2) `json.loads(serialize_parameters())`
@@ -271,6 +283,47 @@ def check_history(cls, ops, level):
     return check_src(cls if level == 'class' else inst)
 
 
+def check_retype(cls, ops, level, attr):
+    """History in which the item type (List.item_type / ClassSelector.class_) is RE-ASSIGNED on the
+    Parameter object after the declaration, then values of the new type are set; the final state is
+    checked like check_state.  ops:
+      ('schema', 'class'|'inst')        ask for the schema first (result dropped: a stale cache shows up)
+      ('new',) / ('kwarg', v)           create the instance (without / with the constructor argument)
+      ('retype', 'class'|'inst', T)     setattr(P.param.x | inst.param.x, attr, T)
+      ('class', v) / ('inst', v) / ('update', v)    assign the value
+    level: 'class' -> schema/state of the class, 'instance' -> of the instance."""
+    inst = None
+    for op in ops:
+        k = op[0]
+        if k == 'new':
+            inst = cls()
+        elif k == 'kwarg':
+            inst = cls(x=op[1])
+        elif k == 'schema':
+            try:
+                (cls if op[1] == 'class' else inst).param.schema()
+            except Exception:
+                pass
+        elif k == 'retype':
+            setattr(cls.param.x if op[1] == 'class' else inst.param.x, attr, op[2])
+        elif k == 'class':
+            cls.x = op[1]
+        elif k == 'inst':
+            inst.x = op[1]
+        elif k == 'update':
+            inst.param.update(x=op[1])
+        else:
+            raise RuntimeError('unknown op %r' % (op,))
+    try:
+        return check_src(cls if level == 'class' else inst)
+    except (param.serializer.UnserializableException, param.serializer.UnsafeserializableException):
+        raise
+    except Exception as e:
+        # every item type used by these histories has JSON-schema support: no schema at all is not a
+        # well-formed schema
+        return [('C16/schema/wellformed', 'raised', 'schema() raised %s: %s' % (type(e).__name__, e))]
+
+
 def check_src(src):
     try:
         text = src.param.serialize_parameters()
@@ -367,6 +420,7 @@ check_state = _CORE["check_state"]
 check_probe = _CORE["check_probe"]
 check_instance_edit = _CORE["check_instance_edit"]
 check_history = _CORE["check_history"]
+check_retype = _CORE["check_retype"]
 HAVE_JSONSCHEMA = _CORE["jsonschema"] is not None
 
 
@@ -408,11 +462,14 @@ sys.exit(0)
 '''
 
 
-def make_replay(clause, witness, decl, kind, value_src=None, level=None, probe_src=None, edit=None, ops_src=None):
+def make_replay(clause, witness, decl, kind, value_src=None, level=None, probe_src=None, edit=None, ops_src=None,
+                retype_attr=None):
     head = REPLAY_HEADER.format(prop="C16", name="replay_c16.py", clause=clause, witness=witness).replace("sys.path.insert(0, '/repo')", "import os\nsys.path.insert(0, os.environ.get('PYVC_REPO', '/repo'))      # (PYVC_REPO: a scratch copy of the library under test)")
     head = head.replace("PYTHONPATH=/repo /venv/bin/python",
                         "PYTHONPATH=/repo python3-vt   (or /venv/bin/python: built-in validator)")
-    if ops_src is not None:
+    if retype_attr is not None:
+        call = "res = check_retype(C16Case, %s, %r, %r)" % (ops_src, level, retype_attr)
+    elif ops_src is not None:
         call = "res = check_history(C16Case, %s, %r)" % (ops_src, level)
     elif edit is not None:
         call = "res = check_instance_edit(C16Case, %r, %r, value=%s, probe=%s)" % (edit[0], edit[1], value_src, probe_src)
@@ -606,7 +663,14 @@ def other_configs():
                  ("tuple", ["[]", "[(1, 2)]"]),
                  ("NoneType", ["[]", "[None]"]),
                  ("(int, str)", ["[]", "[1, 'a']", "[True]"]),
-                 ("(int, float)", ["[]", "[1, 2.5]"]),
+                 ("(int, float)", ["[]", "[1, 2.5]",
+                                   # INTEGRAL values under a union whose members map to overlapping JSON
+                                   # types (an integer is an `integer` and a `number`)
+                                   "[1]", "[1.0]", "[2, 3]", "[2**64, 2.0]"]),
+                 ("(float, int)", ["[1]", "[2.0, 3]", "[2.5]"]),
+                 ("(int, float, str)", ["[1]", "[1, 2.0, 'a']"]),
+                 ("(int, float, NoneType)", ["[1, None]", "[2.0]", "[3, 2.5, None]"]),
+                 ("(int, int)", ["[1]", "[1, 2]"]),
                  ("(float, NoneType)", ["[]", "[1.5, None]"]),
                  ("C16Item", ["[]"])]
         for it, vals in items:
@@ -651,6 +715,9 @@ def other_configs():
                         ("bool", ["True", "False"]), ("list", ["[]", "[1, 'a']"]), ("dict", ["{}", "{'a': [1]}"]),
                         ("tuple", ["()", "(1, 2)"]), ("NoneType", ["None"]), ("(int, str)", ["1", "'a'"]),
                         ("(int, float, str, NoneType)", ["1", "2.5", "'a'", "None"]), ("(list, dict)", ["[1]", "{'a': 1}"]),
+                        # unions whose members map to overlapping JSON types, integral values
+                        ("(int, float)", ["1", "1.0", "2.5", "-2**64"]), ("(float, int)", ["1", "2.0"]),
+                        ("(int, float, str)", ["1", "2.0", "'a'"]), ("(int, int)", ["1"]),
                         ("C16Item", ["None"])]:
             vv = list(vals)
             if an and "None" not in vv:
@@ -721,6 +788,78 @@ def admitted_configs(quick):
     return out
 
 
+RETYPE_NEW = [
+    # (new type, class of the type, scalar values of it)   -- no bools (known defect C16-b02) and none of
+    # the classes class__schema maps to `object` although they serialize otherwise (C16-b03)
+    ("int", "single", ["1", "-2**64"]),
+    ("float", "single", ["1.5", "1.0"]),
+    ("str", "single", ["'a'", "''"]),
+    ("dict", "single", ["{'k': 1}"]),
+    ("NoneType", "single", ["None"]),
+    ("(int, float)", "overlap", ["1", "1.0", "2.5", "2**64"]),
+    ("(float, int)", "overlap", ["1", "2.0", "2.5"]),
+    ("(int, str)", "union", ["1", "'a'"]),
+    ("(str, NoneType)", "union", ["'a'", "None"]),
+    ("(int, float, str)", "overlap", ["1", "2.0", "'a'"]),
+    ("(int, float, NoneType)", "overlap", ["3", "None", "2.0"]),
+]
+
+
+def retype_configs():
+    """List.item_type / ClassSelector.class_ RE-ASSIGNED after the declaration (class-level or per-instance
+    Parameter object), then values of the new type set and serialized.
+    -> list of (type, attr, decl, ops_src, level, vclass);  ops: see check_retype in CORE_SRC.
+    Every history ends in a valid state BY CONSTRUCTION: the last value assigned through the Parameter
+    that governs the checked object consists of instances of the type that Parameter was last given
+    (and the real validator must accept every assignment, else the case is skipped)."""
+    out = []
+    declared = {
+        "List": [("None", "[1, 'a']"), ("int", "[1]"), ("str", "['a']"), ("(int, str)", "[1, 'a']"), ("C16Item", "[]")],
+        "ClassSelector": [("int", "1"), ("str", "'a'"), ("(int, str)", "'a'"), ("C16Item", "None")],
+    }
+    for tname, attr in (("List", "item_type"), ("ClassSelector", "class_")):
+        for A, vA in declared[tname]:
+            for an in NONE_OPTS:
+                if tname == "ClassSelector" and vA == "None" and not an:
+                    continue
+                decl = "param.%s(default=%s%s%s)" % (
+                    tname, vA, "" if A == "None" else ", %s=%s" % (attr, A), ", allow_None=True" if an else "")
+                for B, bclass, scalars in RETYPE_NEW:
+                    if B == A:
+                        continue
+                    if tname == "List":
+                        vals = ["[%s]" % x for x in scalars] + (["[%s]" % ", ".join(scalars)] if len(scalars) > 1 else [])
+                    else:
+                        vals = list(scalars)
+                    other = "float" if B != "float" else "str"
+                    for v in vals:
+                        rc, ri = "('retype', 'class', %s)" % B, "('retype', 'inst', %s)" % B
+                        hs = [
+                            ("class", "[%s, ('class', %s)]" % (rc, v), "class"),
+                            ("class", "[%s, ('kwarg', %s)]" % (rc, v), "instance"),
+                            ("class", "[%s, ('new',), ('inst', %s)]" % (rc, v), "instance"),
+                            ("class-shared", "[('new',), %s, ('update', %s)]" % (rc, v), "instance"),
+                            ("inst", "[('new',), %s, ('inst', %s)]" % (ri, v), "instance"),
+                            ("inst", "[('new',), %s, ('update', %s)]" % (ri, v), "instance"),
+                            # the class keeps its declared type and default
+                            ("inst-leak", "[('new',), %s, ('inst', %s)]" % (ri, v), "class"),
+                            # the schema was asked for before the re-assignment
+                            ("class+asked", "[('schema', 'class'), %s, ('class', %s)]" % (rc, v), "class"),
+                            ("inst+asked", "[('new',), ('schema', 'inst'), %s, ('inst', %s)]" % (ri, v), "instance"),
+                            # re-assigned, then back to the declared type
+                            ("class-back", "[%s, ('class', %s), ('retype', 'class', %s), ('class', %s)]" % (rc, v, A, vA), "class"),
+                            ("inst-back", "[('new',), %s, ('inst', %s), ('retype', 'inst', %s), ('inst', %s)]" % (ri, v, A, vA),
+                             "instance"),
+                            # class-level Parameter re-assigned to one type, per-instance Parameter to another
+                            ("class+inst", "[('retype', 'class', %s), ('new',), %s, ('inst', %s)]" % (other, ri, v), "instance"),
+                        ]
+                        for where, ops_src, level in hs:
+                            if where.endswith("-back") and tname == "ClassSelector" and A == "None":
+                                continue
+                            out.append((tname, attr, decl, ops_src, level, "%s/%s" % (where, bclass)))
+    return out
+
+
 def value_tags(v):
     tags = set()
 
@@ -771,6 +910,13 @@ def _run(tier, seed):
                "sets x allow_None) with values admitted AFTER the declaration (same / new JSON type; constructor, "
                "instance, update, class route; histories of 1-2 admissions, back to a declared object; lists naming "
                "an unknown object once / twice / mixed with known ones), quick: two-admission histories 1-in-3; "
+               "List/ClassSelector additionally 5 unions with overlapping JSON types ((int, float), (float, int), "
+               "(int, float, str), (int, float, NoneType), (int, int)) with integral values; List.item_type / "
+               "ClassSelector.class_ RE-ASSIGNED after the declaration on the class-level or per-instance Parameter "
+               "(5/4 declared types x 11 new types x allow_None x 1-5 values of the new type x 12 histories of "
+               "length 2-5: class/kwarg/instance/update route, shared class Parameter, per-instance re-assignment, "
+               "schema asked before, re-assigned and back, class and instance re-assigned differently = 5820 "
+               "histories), quick: 1-in-5 slice by seed; "
                "thorough adds 150 pseudo-random bounds shapes per numeric type (Integer: 50 of them non-integral)"))
     if not HAVE_JSONSCHEMA:
         B.note("jsonschema not importable in this interpreter: verdicts come from the built-in draft-07 reading "
@@ -942,6 +1088,42 @@ def _run(tier, seed):
             tail = "failing=%s decl=%s ops=%s level=%s" % (m.group(1) if m else "-", decl, ops_src, level)
             handle([(clause, kind, detail)], tname, "objects=%s+admitted" % style,
                    vcls + ("/" + m.group(1) if m else ""), tail, dict(decl=decl, ops_src=ops_src, level=level))
+
+    # ---------------------------------------------------------------- item type re-assigned after the declaration
+    rt = retype_configs()
+    n_rt_all = len(rt)
+    if tier == "quick":
+        # 1-in-5 slice chosen by seed (12 histories per value: every history kind x type pair is met)
+        rt = [c for i, c in enumerate(rt) if (i + seed) % 5 == 0]
+    for tname, attr, decl, ops_src, level, vcls in rt:
+        try:
+            cls = make_class(decl)
+            ops = _ev(ops_src)
+        except Exception:
+            skipped["invalid-declaration"] += 1
+            continue
+        B.case(key=("retype", decl, ops_src, level))
+        try:
+            res = check_retype(cls, ops, level, attr)
+        except Unser:
+            skipped["no-schema-support"] += 1
+            continue
+        except (ValueError, TypeError):
+            skipped["invalid-declaration"] += 1      # an assignment rejected by the validator: not a valid state
+            continue
+        B.checked("C16/schema/wellformed")
+        B.checked("C16/valid-state/accepted")
+        if res is None:
+            skipped["not-serializable"] += 1
+            continue
+        for clause, kind, detail in res:
+            m = re.search(r"\[failing-keywords=([^\]]*)\]", detail)
+            tail = "failing=%s decl=%s ops=%s level=%s" % (m.group(1) if m else "-", decl, ops_src, level)
+            handle([(clause, kind, detail)], tname, "%s=reassigned" % attr,
+                   vcls + ("/" + m.group(1) if m else ""), tail,
+                   dict(decl=decl, ops_src=ops_src, level=level, retype_attr=attr))
+    if len(B.samples) < 8 and rt:
+        B.sample({"family": "retype", "explored": len(rt), "of": n_rt_all, "first": list(rt[0])}, limit=8)
 
     B.note("skipped (outside the statement): %r" % (skipped,))
     B.notes = sorted(set(B.notes))
